@@ -41,9 +41,12 @@ CLAIMED = {
     "C20": (True, "exploration", "DESIGN.md §3 C20",
             "Real zlink_tokio and zlink_smol notified::{State, Once, Stream} with their real channels, driven poll by poll: every operation sequence over {set, subscribe, poll0, poll1, poll2} up to length 7 (quick) / 9 (thorough), every one-shot sequence over {poll, notify, drop notifier} up to length 3, plus 1.5e5 / 3e6 seeded sequences that also drop subscribers and clone/drop states. Model: values yielded are set values, strictly increasing, marked continuing; no end while a state exists; after draining the last item is the last value set; a pending subscriber is woken by the next set; one-shot = exactly one final item then end; both crates run the same sequence.",
             "Single-threaded operation sequences; races inside the channel crates under real parallelism are out of scope."),
+    "C19": (True, "exploration", "DESIGN.md §3 C19",
+            "Two tiers in one check. Tier A (10/16 of the runs): real Connection over a simulated bounded pipe whose write half runs the transport crates' write-all loop; capacity 16..4096, sizes around it, raw peer draining at tape-chosen moments, send/flush futures abandoned at tape-chosen pending polls. Tier B (3/16 tokio + 3/16 smol): the real zlink_tokio / zlink_smol unix Stream, Listener, bind, connect and Listener::try_from(OwnedFd) on real kernel sockets, 1..8 connections (socketpair / bound / inherited blocking-mode descriptor), SO_SNDBUF 4 KiB..default, messages 0 B..300 kB (quick) / 1 MiB (thorough), split duplex with both directions busy and end-of-stream after close, unsplit call/reply ping-pong, abandoned sends against a raw peer; one thread issues every syscall in tape order. 1.6e4 (quick) / 4e5 (thorough) seeded runs. Oracle: received sequence = sent sequence; ids distinct; raw peer stream = whole submitted frames, in order, at most once.",
+            "Tier B's kernel is real, not stubbed; it is treated as a deterministic function of one thread's syscall sequence and that is re-checked on a sample of every batch. Blocked syscalls are caught by a wall-clock watchdog (120 s quick / 900 s thorough per execution). Concurrent connection creation from several OS threads is not scheduled."),
 }
 
-PLANNED = { "C18", "C19", "C20"}
+PLANNED = set()
 
 NOT_BUILT_REASON = "claimed in DESIGN.md but its check is not built yet in this commit"
 
